@@ -1689,7 +1689,7 @@ func (e *nilEngine) callNonNil(call *ssa.Call, idx int, st fstate, at ssa.Instru
 }
 
 func (e *nilEngine) externalNonNil(name string, call *ssa.Call, idx int, st fstate) bool {
-	info, ok := externals[name]
+	info, ok := externals[extName(name)]
 	if ok && info.MayNil {
 		return false
 	}
